@@ -212,14 +212,14 @@ func contentOf(kind string, a core.Ammo) string {
 	if len(keys) > 0 {
 		parts := make([]string, len(keys))
 		for i, k := range keys {
-			parts[i] = hexOrDash(k) + "=" + hexOrDash(strings.Join(req.Header[k], "\x00"))
+			parts[i] = hexOrDash(k) + "=" + hexOrDash(strings.Join(stampless(req.Header[k]), "\x00"))
 		}
 		hs = strings.Join(parts, ";")
 	}
 	return fmt.Sprintf("%s%d/%s/%s/%s", pre, idx, hexOrDash(sample.Tags()), hexOrDash(req.Host), hs)
 }
 
-func runContentOne(kind string, preload bool, limit, passes int, cfg []kv, items []citem, chosen []string, cancel, eof int) (out string) {
+func runContentOne(kind string, preload bool, limit, passes int, cfg []kv, items []citem, chosen []string, cancel, eof int, mws []mwSpec) (out string) {
 	defer func() {
 		if r := recover(); r != nil {
 			out = "0 - blocked panic"
@@ -237,7 +237,7 @@ func runContentOne(kind string, preload bool, limit, passes int, cfg []kv, items
 		hdrs = append(hdrs, "["+p.k+": "+p.v+"]")
 	}
 	p, err := phttp.NewProvider(fs, config.Config{Decoder: dec, File: name, Limit: uint(limit), Passes: uint(passes),
-		Preload: preload, ChosenCases: chosen, Headers: hdrs})
+		Preload: preload, ChosenCases: chosen, Headers: hdrs, Middlewares: buildMiddlewares(mws)})
 	if err != nil {
 		return "0 - closed construct"
 	}
@@ -270,8 +270,12 @@ func runContentOne(kind string, preload bool, limit, passes int, cfg []kv, items
 }
 
 func runContentCase(f []string) string {
-	if len(f) != 9 {
+	if !(len(f) == 9 && f[0] == "cpair") && !(len(f) == 10 && f[0] == "mpair") {
 		return "unknown-case"
+	}
+	var mws []mwSpec
+	if f[0] == "mpair" {
+		mws = parseMws(f[9])
 	}
 	kind := f[1]
 	limit, _ := strconv.Atoi(f[2])
@@ -297,8 +301,8 @@ func runContentCase(f []string) string {
 	var s, p string
 	var wg sync.WaitGroup
 	wg.Add(2)
-	go func() { defer wg.Done(); s = runContentOne(kind, false, limit, passes, cfg, items, chosen, cancel, eof) }()
-	go func() { defer wg.Done(); p = runContentOne(kind, true, limit, passes, cfg, items, chosen, cancel, eof) }()
+	go func() { defer wg.Done(); s = runContentOne(kind, false, limit, passes, cfg, items, chosen, cancel, eof, mws) }()
+	go func() { defer wg.Done(); p = runContentOne(kind, true, limit, passes, cfg, items, chosen, cancel, eof, mws) }()
 	wg.Wait()
 	return "S " + s + " P " + p
 }
